@@ -1,0 +1,22 @@
+// Verification hooks: re-exports of crate-private items for the out-of-tree correspondence
+// harness. Compiled only with `--features verif`; nothing here changes behaviour.
+
+pub use crate::bcodec::bencoder::BEncoder;
+pub use crate::commands::{
+    BitfieldCmd, BroadCmd, ExtractorCmd, HaveCmd, InitCmd, NotInterestedCmd, PeerCmd, PieceCmd,
+    ReqData, RequestCmd, TrackerCmd, UnchokeCmd,
+};
+pub use crate::connection::Connection;
+pub use crate::constants::*;
+pub use crate::extractor::Extractor;
+pub use crate::frame::Frame;
+pub use crate::messages::{
+    Bitfield, Cancel, Choke, Handshake, Have, Interested, KeepAlive, NotInterested, Piece, Request,
+    Unchoke,
+};
+pub use crate::metainfo::PiecePos;
+pub use crate::peer::Peer;
+pub use crate::peer_handler::PeerHandler;
+pub use crate::serializer::Serializer;
+pub use crate::session::Status;
+pub use crate::utils::hash_to_string;
